@@ -343,6 +343,12 @@ pub fn u16_to_be_bytes(x: u16) -> (r: [u8; 2])
     ensures r@[0] == (x / 256) as u8, r@[1] == (x % 256) as u8
 { x.to_be_bytes() }
 
+// common Option combinators without a vstd specification (widen the accepted subset)
+pub assume_specification<T, U, F: FnOnce(T) -> U> [Option::<T>::map_or] (o: Option<T>, default: U, f: F) -> (r: U)
+    ensures match o { Some(x) => f.ensures((x,), r), None => r == default };
+pub assume_specification<T> [Option::<Option<T>>::flatten] (o: Option<Option<T>>) -> (r: Option<T>)
+    ensures r == (match o { Some(x) => x, None => None });
+
 pub uninterp spec fn tz(x: usize) -> u32;
 pub assume_specification [usize::trailing_zeros] (x: usize) -> (r: u32)
     ensures r == tz(x), r <= 64;
